@@ -9,13 +9,14 @@ def blk(s, h, par):
     return f'[s |-> {s}, h |-> "{h}", par |-> <<{par[0]}, "{par[1]}">>]'
 
 
-def universe(blocks, ready, certs, s2n, evslots):
+def universe(blocks, ready, certs, s2n, evslots, prefix=()):
     b = "{" + ", ".join(blk(*x) for x in blocks) + "}"
     r = "{" + ", ".join(f'<<{s}, <<{p[0]}, "{p[1]}">>>>' for (s, p) in ready) + "}"
     c = "{" + ", ".join(f'[k |-> "{k}", s |-> {s}, h |-> "{h}"]' for (k, s, h) in certs) + "}"
     n = "{" + ", ".join(f'<<{s}, "{h}">>' for (s, h) in s2n) + "}"
     e = "{" + ", ".join(map(str, evslots)) + "}"
-    return f"UB == {b}\nUR == {r}\nUC == {c}\nUN == {n}\nUE == {e}\n"
+    up = "<<" + ", ".join(blk(*x) for x in prefix) + ">>"
+    return f"UB == {b}\nUR == {r}\nUC == {c}\nUN == {n}\nUE == {e}\nUP == {up}\n"
 
 
 def cfg(max_slot, max_steps, invariants, dump):
@@ -28,6 +29,7 @@ def cfg(max_slot, max_steps, invariants, dump):
   S2NU <- UN
   EvSlots <- UE
   MaxSteps = {max_steps}
+  Prefix <- UP
 INIT Init
 NEXT Next
 VIEW View
